@@ -48,6 +48,18 @@ AggLists == {<<AI("avg", "b", "av"), AI("sum", "b", "s"), AI("min", "b", "m")>>,
 AggWheres == {None, CmpE(">", Col("a"), LN(1)), CmpE(">", Col("a"), LN(100)), CmpE("=", Col("g"), LN(0)),
               AndE(CmpE("=", Col("h"), LS(<<120>>)), CmpE("<", Col("a"), LN(3)))}
 
+\* the table under an alias, every column written with the alias as its qualifier (GROUP BY r.g): the grouping
+\* columns, the aggregates' arguments, WHERE - among them WHERE r.z IS NULL, which leaves NULL keys only
+QC(c) == ColP(<<"r", c>>)
+QItems(gs) == [i \in 1..Len(gs) |-> Item(QC(gs[i]), "")]
+QAI(f, c, as) == Item(Agg(f, IF c = "" THEN <<>> ELSE <<"r", c>>), as)
+QLists(gs) == {QItems(gs) \o <<QAI("count", "", "c")>>,
+               QItems(gs) \o <<QAI("sum", "a", "s"), QAI("max", "b", "mb")>>,
+               <<QAI("count", "", "c"), QAI("min", "a", "mn")>>}
+QWH == {<<None, None>>, <<IsE("null", QC("z")), None>>,
+        <<CmpE(">", QC("a"), LN(1)), CmpE(">", Agg("count", <<>>), LN(1))>>}
+QGroupSets == {<<"g">>, <<"z">>, <<"z", "g">>}
+
 \* many groups on one column: more than eight distinct keys, later ones recurring
 ManyKeys == {<<1, 2, 3, 4, 5, 6, 7, 8, 9, 9, 10, 3, 9>>, <<1, 2, 3, 4, 5, 6, 7, 8, 9, 10, 11, 10, 9, 1>>, <<9, 8, 7, 6, 5, 4, 3, 2, 1, 0, 1, 0>>}
 ManyTable(ks) == [i \in 1..Len(ks) |-> R(ks[i], X, Null, i, IF i % 3 = 0 THEN Null ELSE NumV(i))]
@@ -59,6 +71,9 @@ Init ==
        \/ \E tbl \in SeqsUpTo(Rows, MaxRows) : \E gs \in GroupSets : \E sl \in Lists(gs) : \E wh \in WH :
             cs = [fam |-> "group", doc |-> Doc1("t", tbl),
                   q |-> [BaseQ EXCEPT !.sel = sl, !.group = gs, !.where = wh[1], !.having = wh[2]]]
+       \/ \E tbl \in SeqsUpTo(Rows, MaxRows) : \E gs \in QGroupSets : \E sl \in QLists(gs) : \E wh \in QWH :
+            cs = [fam |-> "group", doc |-> Doc1("t", tbl),
+                  q |-> [gqual |-> "r"] @@ [BaseQ EXCEPT !.from = Table(<<"t">>, "r"), !.sel = sl, !.group = gs, !.where = wh[1], !.having = wh[2]]]
        \/ \E tbl \in SeqsUpTo(Rows, MaxRows) : \E sl \in AggLists : \E w \in AggWheres :
             cs = [fam |-> "whole", doc |-> Doc1("t", tbl), q |-> [BaseQ EXCEPT !.sel = sl, !.where = w]]
     /\ EngineInit
@@ -71,7 +86,8 @@ Kept   == Stage("where")
 Groups == Stage("group")                              \* after HAVING
 AllGroups == StGroup([cs.q EXCEPT !.having = None], cs.doc, Kept).e
 GS     == cs.q.group
-KeyOf(r)  == [i \in 1..Len(GS) |-> Get(r, GS[i])]
+\* (of a source row and of a group row alike: both hold the grouping columns under the qualifier, if there is one)
+KeyOf(r)  == [i \in 1..Len(GS) |-> IF GQual(cs.q) = "" THEN Get(r, GS[i]) ELSE PathGet(r, <<GQual(cs.q), GS[i]>>)]
 Members(g) == g.f["*"].e
 
 Total == Done => ~IsErr(res)
